@@ -255,4 +255,81 @@ theorem digits_ext (k S a b : Nat) (h : ∀ j, j < S → digit a j k = digit b j
   · simp [hj, h j hj]
   · simp [hj]
 
+theorem fromDigits_lt (k : Nat) : ∀ (tup : List Nat), (∀ x ∈ tup, x < k) → fromDigits k tup < k ^ tup.length
+  | [], _ => by simp [fromDigits]
+  | d :: ds, h => by
+    have hd : d < k := h d List.mem_cons_self
+    have ih := fromDigits_lt k ds (fun x hx => h x (List.mem_cons_of_mem _ hx))
+    rw [fromDigits, List.length_cons, Nat.pow_succ]
+    have : k * fromDigits k ds + k ≤ k * k ^ ds.length := by
+      have := Nat.mul_le_mul_left k (Nat.succ_le_of_lt ih)
+      rw [Nat.mul_succ] at this
+      exact this
+    rw [Nat.mul_comm (k ^ ds.length) k]
+    omega
+
+/-- one stage loses no row: a row at position `q` re-appears at the position obtained from `q` by overwriting
+    digit `s` with the stage digit of the row's target -/
+theorem stageStep_complete (k S s nIn : Nat) (hk : 0 < k) (hs : s < S) (parts : List (List Row))
+    (q : Nat) (hq : q < k ^ S) (rows : List Row) (hrows : parts[q]? = some rows) (r : Row) (hr : r ∈ rows) :
+    ∃ part rows', part < k ^ S ∧ (stageStep k S s nIn parts)[part]? = some rows' ∧ r ∈ rows' := by
+  let d := digit (r.1 % nIn) s k
+  have hd : d < k := digit_lt _ _ _ hk
+  let tup := insert (digits q S k) s d
+  have htlen : tup.length = S := by simp [tup, insert, digits_length]
+  have htall : ∀ x ∈ tup, x < k := by
+    intro x hx
+    rcases List.mem_or_eq_of_mem_set hx with h | h
+    · exact digits_lt q S k hk x h
+    · omega
+  let part := fromDigits k tup
+  have hpart : part < k ^ S := by
+    have := fromDigits_lt k tup htall
+    rwa [htlen] at this
+  have hdp : digits part S k = tup := by
+    have := digits_fromDigits k hk tup htall
+    rwa [htlen] at this
+  refine ⟨part, (List.range k).flatMap fun i =>
+      shuffleGroup k s nIn (parts.getD (fromDigits k (insert (digits part S k) s i)) []) ((digits part S k).getD s 0),
+    hpart, ?_, ?_⟩
+  · unfold stageStep
+    rw [List.getElem?_map, List.getElem?_range hpart]
+    rfl
+  · rw [List.mem_flatMap]
+    refine ⟨digit q s k, List.mem_range.mpr (digit_lt _ _ _ hk), ?_⟩
+    -- the source position is `q`
+    have hsrc : fromDigits k (insert (digits part S k) s (digit q s k)) = q := by
+      rw [hdp]
+      have : insert tup s (digit q s k) = digits q S k := by
+        simp only [tup, insert, List.set_set]
+        apply List.ext_getElem?
+        intro j
+        by_cases hj : j = s
+        · subst hj
+          rw [List.getElem?_set_self (by rw [digits_length]; exact hs), digits_getElem?, if_pos hs]
+        · rw [List.getElem?_set_ne (by omega)]
+      rw [this]
+      exact fromDigits_digits k S q hq
+    have hout : (digits part S k).getD s 0 = d := by
+      rw [hdp, List.getD_eq_getElem?_getD]
+      simp only [tup, insert]
+      rw [List.getElem?_set_self (by rw [digits_length]; exact hs)]
+      rfl
+    rw [hsrc, hout]
+    unfold shuffleGroup
+    rw [List.mem_filter]
+    refine ⟨?_, ?_⟩
+    · rw [List.getD_eq_getElem?_getD, hrows]; exact hr
+    · simp [stageIndex, d]
+
+theorem staged_complete (k S nIn : Nat) (hk : 0 < k) (parts : List (List Row)) (r : Row) :
+    ∀ s, s ≤ S → (∃ q rows, q < k ^ S ∧ parts[q]? = some rows ∧ r ∈ rows) →
+      ∃ q rows, q < k ^ S ∧ ((List.range s).foldl (fun ps s => stageStep k S s nIn ps) parts)[q]? = some rows ∧ r ∈ rows
+  | 0, _, h => h
+  | s + 1, hs, h => by
+    obtain ⟨q, rows, hq, hrows, hr⟩ := staged_complete k S nIn hk parts r s (by omega) h
+    rw [List.range_succ, List.foldl_append]
+    obtain ⟨part, rows', hp, hrows', hr'⟩ := stageStep_complete k S s nIn hk (by omega) _ q hq rows hrows r hr
+    exact ⟨part, rows', hp, hrows', hr'⟩
+
 end Dask.Shuffle
